@@ -676,3 +676,24 @@ Definition c12_check_swap (t : tree) : tree :=
   | Ok (es', _) => of_bool (step_allowed nodes (dec_target (t_nth 7 t)) es es')
   | Err c => I 0
   end.
+
+(* ------------------------------------------------------------------ C12: the Metropolis ratio *)
+(* pi(g) = product over the edges of the target weight of the edge's pairing (0 when missing) *)
+Definition wq (nodes : list (list Z)) (tg : target) (e : edge) : Q :=
+  match weight nodes tg e with Some q => q | None => 0#1 end.
+Definition prodw (nodes : list (list Z)) (tg : target) (l : list edge) : Q :=
+  fold_right (fun e acc => Qmult (wq nodes tg e) acc) (1#1) l.
+(* numerator = product over the proposal edges, denominator = product over the removed corner edges *)
+Definition ratio_ok (nodes : list (list Z)) (tg : target) (olds props : list edge) (top bot : Q) : bool :=
+  Qeq_bool top (prodw nodes tg props) && Qeq_bool bot (prodw nodes tg olds).
+
+(* c12_ratio_check [nodes; edges; u0; v0; c0; c1; props; target; top; bot] *)
+Definition c12_ratio_check (t : tree) : tree :=
+  let nodes := dec_nodes (t_nth 0 t) in
+  let es := dec_edges (t_nth 1 t) in
+  match attrs es (t_z (t_nth 2 t)) (t_zs (t_nth 4 t)), attrs es (t_z (t_nth 3 t)) (t_zs (t_nth 5 t)) with
+  | Some a0, Some a1 =>
+      of_bool (ratio_ok nodes (dec_target (t_nth 7 t)) (a0 ++ a1) (dec_edges (t_nth 6 t))
+                        (t_q (t_nth 8 t)) (t_q (t_nth 9 t)))
+  | _, _ => I 0
+  end.
